@@ -68,6 +68,14 @@ CLAIMED = {
    text="Fourier.tla defines circular shifts and grid refinement as index maps on recorded fields and the laws layer(Shift(u,s)) = Shift(layer(u),s), coarse/fine agreement at shared nodes for band-limited input, and input immutability; MC_Fourier model-checks that the layer's mode padding/truncation bookkeeping is a diagonal frequency map for all spectrum lengths and mode counts. TLC enumerates 1-D and 2-D layer / FNO configurations; real layers run on random fields and every recorded field pair is decided by TLC in fixed point.",
    note="Trusted: TLC; fixed point 2^-12 with tolerance 6 units; torch.roll is used only to build the shifted INPUT, which TLC re-checks against the recorded input. Bounded: d in {1,2}, N <= 12 per axis, <= 3 channels, modes <= 9, 2-layer FNO with Tanh; batch-norm variant excluded.",
    technique="TLA+ index-map laws on recorded fixed-point fields (TLC trace validation) + TLC model check of the mode bookkeeping", ref="5 C20"),
+ "C04": dict(
+   text="Conditions.tla states, in an exact integer universe (affine integer models, integer sample points, affine data functions), what the residual must receive by name row by row (coordinates, model outputs, parameter, data functions at the same rows, left/right values for periodic conditions) and the documented reduction (mean of squared residual summed over components / plain mean). TLC enumerates 624 single-condition scenarios over kinds, residual families, space / model / signature orders, static or not, n; real conditions are built with recording residuals and TLC validates the recorded arguments and the loss (as an exact rational) after every evaluation.",
+   note="Trusted: TLC; recording residual functions generated from the scenario; float64 affine models. Covered kinds: PINN, mean/Deep-Ritz, periodic. Data conditions are covered in C16; Integro / HPM / DeepONet conditions are not driven.",
+   technique="TLA+ evaluation semantics in an exact integer universe + TLC trace validation of exhaustively enumerated scenarios", ref="5 C04"),
+ "C14": dict(
+   text="MC_Cond model-checks the dictionary handling (copy vs in-place) against isolation for all construct/evaluate interleavings of 3 conditions; TLC generates histories of constructing and evaluating up to three real conditions that share user dictionaries (static and non-static samplers, periodic left/right data) and the trace monitor checks after every step that each condition received its data functions on ITS OWN points, that the user dictionaries still hold the user's function objects, and that static conditions repeat their loss.",
+   note="Trusted: TLC; as C04. Histories of 6 operations over 6 candidate conditions and 2 shared dictionaries (-simulate, 400 quick / 5000 thorough).",
+   technique="TLA+ model checking of shared-object interference + TLC-generated histories replayed into the code + stepwise TLC trace validation", ref="5 C14"),
 }
 PENDING_REASON = "check not built yet in this round (design in DESIGN.md section 5); not claimed"
 
